@@ -623,16 +623,19 @@ def resampleStepwise(xin, yin, xout, avg=True):
             yout.append(0)
             continue
 
+        # fraction of each input bin that lies inside this output bin (the input values are never
+        # modified in place: they may be views of the caller's arrays)
+        inside = [1.0] * len(chunk)
+
         # trim any partial right-side bins
         if xout[i] < xin[min(end, len(xin) - 1)]:
             fraction = (xout[i] - xin[end - 1]) / (xin[end] - xin[end - 1])
             if fraction == 0:
                 chunk = chunk[:-1]
                 length = length[:-1]
-            elif avg:
-                length[-1] *= fraction
+                inside = inside[:-1]
             else:
-                chunk[-1] *= fraction
+                inside[-1] -= 1.0 - fraction
 
         # trim any partial left-side bins
         if xout[i - 1] > xin[start - 1]:
@@ -640,19 +643,19 @@ def resampleStepwise(xin, yin, xout, avg=True):
             if fraction == 0:
                 chunk = chunk[1:]
                 length = length[1:]
-            elif avg:
-                length[0] *= fraction
+                inside = inside[1:]
             else:
-                chunk[0] *= fraction
+                inside[0] -= 1.0 - fraction
 
         # return the sum or the average
         if [1 for c in chunk if (not hasattr(c, "__len__") and c is None)]:
             yout.append(None)
         elif avg:
-            weighted_sum = sum([ch * ln for ch, ln in zip(chunk, length)])
-            yout.append(weighted_sum / sum(length))
+            weights = [ln * f for ln, f in zip(length, inside)]
+            weighted_sum = sum([ch * w for ch, w in zip(chunk, weights)])
+            yout.append(weighted_sum / sum(weights))
         else:
-            yout.append(sum(chunk))
+            yout.append(sum([ch * f for ch, f in zip(chunk, inside)]))
 
     return yout
 
